@@ -11,6 +11,7 @@ namespace KamalProxy.Faults
 inductive Fault
   | ok (status bodyLen : Nat)
   | refuse | close | garbage | midStatus | midHeaders | afterStatus | afterHeaderLine
+  | reset | resetMidHeaders               -- the connection is reset (RST: `ECONNRESET` on the proxy's read) before / inside the header block
   | silence
   | slow (delay : Nat)                    -- complete 200 response "ok" after `delay`
   | midBody (declared sent : Nat)         -- Content-Length `declared`, `sent` bytes, close
@@ -45,7 +46,14 @@ structure Setup where
   bufResp : Bool
   pages   : Bool          -- the service has a custom error-page directory (with 502.html, 503.html)
   timeout : Nat           -- target timeout (ResponseHeaderTimeout)
+  maxResp : Nat := 0      -- max-response-body (0 = no limit); only looked at when responses are buffered
 deriving Repr
+
+/-- a buffered response of `n` body bytes is over the service's limit -/
+def overLimit (s : Setup) (n : Nat) : Bool := s.bufResp && s.maxResp != 0 && decide (s.maxResp < n)
+
+/-- `http.Error(w, "Internal Server Error", 500)`: the body the client gets in place of an over-limit response -/
+def overLimitBodyLen : Nat := 22
 
 /-- what the client gets -/
 inductive ClientSees
@@ -70,9 +78,17 @@ def errPage (s : Setup) (status : Nat) (routed : Bool) : Page :=
 def outcome (s : Setup) (f : Fault) : Outcome :=
   let err (st : Nat) (at_ : Nat) : Outcome :=
     { client := .page st (errPage s st true), at_ := at_, logStatus := st, logBytes := none, claimed := true }
+  -- a complete response from the target: delivered as is, unless it is buffered and over the limit — then
+  -- nothing of it is delivered and the client gets a complete plain 500 in its place (never a cut connection)
+  let full (st n : Nat) : Outcome :=
+    if overLimit s n then
+      { client := .response 500 overLimitBodyLen, at_ := 0, logStatus := 500, logBytes := some overLimitBodyLen, claimed := true }
+    else { client := .response st n, at_ := 0, logStatus := st, logBytes := some n, claimed := true }
   match f with
-  | .ok st n => { client := .response st n, at_ := 0, logStatus := st, logBytes := some n, claimed := true }
-  | .refuse | .close | .garbage | .midStatus | .midHeaders | .afterStatus | .afterHeaderLine =>
+  | .ok st n => full st n
+  | .refuse | .close | .garbage | .midStatus | .midHeaders | .afterStatus | .afterHeaderLine
+  | .reset | .resetMidHeaders =>
+    -- a reset on the target's side is not the client going away: it is classified like any other failure
     err (classify ⟨false, false, false, false⟩) 0
   | .silence => err (classify ⟨false, true, false, false⟩) s.timeout
   | .slow d =>
@@ -87,7 +103,7 @@ def outcome (s : Setup) (f : Fault) : Outcome :=
     else { client := .cut (some 200) 8, at_ := 0, logStatus := 200, logBytes := some 8, claimed := true }
   | .upgrade => { client := .upgraded, at_ := 0, logStatus := 101, logBytes := some 0, claimed := true }
   -- an informational response is passed on and changes nothing about the final one
-  | .early st n => { client := .response st n, at_ := 0, logStatus := st, logBytes := some n, claimed := true }
+  | .early st n => full st n
 
 /-- the client goes away after `abortAt` while the target has not answered -/
 def outcomeAborted (abortAt : Nat) : Outcome :=
